@@ -3,7 +3,7 @@
 import glob, json, os, subprocess, sys
 pid, n = sys.argv[1], sys.argv[2]
 base = subprocess.run([sys.executable, "/verif/tools/seeder_prompt.py", pid, n], capture_output=True, text=True).stdout
-base = base.replace("/tmp/seed_%s" % pid.lower(), "/tmp/seed6_%s" % pid.lower())
+base = base.replace("/tmp/seed_%s" % pid.lower(), "/tmp/seed7_%s" % pid.lower())
 tried = []
 for f in sorted(glob.glob("/verif/seeded/%s-*/meta.json" % pid)):
     m = json.load(open(f))
